@@ -112,7 +112,7 @@ def check_paths(prog: Program, ci: ClassInfo, paths, label: str, state_keys: set
                         Problem(
                             ev.node,
                             ev.fi,
-                            f"{label}: '{key}' is not in the dictionary written on this path (keys: {have}) although other paths write it; the reader silently takes its default instead of the object's value "
+                            f"{label}: '{key}' is not in the dictionary written on this path (keys: {have}) although it carries object state (other paths write it, or the object is constructed from it); the reader silently takes its default instead of the object's value "
                             f"[when {p.cond_text()[:120]}]",
                             f"defaulted-{key}",
                         )
